@@ -7,6 +7,7 @@ package c18
 import (
 	"fmt"
 	"os"
+	"runtime"
 	"sort"
 	"sync"
 	"sync/atomic"
@@ -31,10 +32,17 @@ type Case struct {
 	Cols       int // shared columns per row (1..4)
 	K          []int
 	Split      int // 0 = round-robin assignment of rows to goroutines, 1 = contiguous blocks
+	// ReuseMap: every goroutine passes ONE map object to AddRow, refilled per
+	// row (AddRow must not keep a reference to the caller's map).
+	ReuseMap bool
+	// FlushDuring: (in-memory writer) a further goroutine writes the writer to
+	// a second database while rows are still being added: that snapshot must be
+	// a consistent prefix - exactly the rows with id below its row count.
+	FlushDuring bool
 }
 
 func (c *Case) Summary() string {
-	return fmt.Sprintf("writer=%s goroutines=%d rows=%d shared-cols=%d mods=%v split=%d", map[bool]string{true: "big", false: "in-memory"}[c.Big], c.Goroutines, c.Total, c.Cols, c.K, c.Split)
+	return fmt.Sprintf("writer=%s goroutines=%d rows=%d shared-cols=%d mods=%v split=%d reuse-map=%v flush-during-adds=%v", map[bool]string{true: "big", false: "in-memory"}[c.Big], c.Goroutines, c.Total, c.Cols, c.K, c.Split, c.ReuseMap, c.FlushDuring)
 }
 
 var colNames = []string{"a", "b", "c", "d"}
@@ -89,6 +97,7 @@ func oracle(c *Case) (interleaved bool, err error) {
 	start := make(chan struct{})
 	errs := make([]error, c.Goroutines)
 	var active, maxActive atomic.Int32
+	var added atomic.Int64
 	var wg sync.WaitGroup
 	for g := 0; g < c.Goroutines; g++ {
 		wg.Add(1)
@@ -104,6 +113,7 @@ func oracle(c *Case) (interleaved bool, err error) {
 			}
 			defer active.Add(-1)
 			errs[g] = fix.Safe(func() error {
+				reused := map[string]string{}
 				for i := 0; i < c.Total; i++ {
 					mine := i%c.Goroutines == g
 					if c.Split == 1 {
@@ -113,15 +123,46 @@ func oracle(c *Case) (interleaved bool, err error) {
 					if !mine {
 						continue
 					}
-					id, err := w.AddRow(c.row(i))
+					row := c.row(i)
+					if c.ReuseMap {
+						for k := range reused {
+							delete(reused, k)
+						}
+						for k, v := range row {
+							reused[k] = v
+						}
+						row = reused
+					}
+					id, err := w.AddRow(row)
 					if err != nil {
 						return fmt.Errorf("AddRow(row %d): %v", i, err)
 					}
 					ids[i] = int64(id)
+					added.Add(1)
 				}
 				return nil
 			})
 		}(g)
+	}
+	var snapErr error
+	snapPath := out + ".snapshot"
+	if c.FlushDuring && !c.Big {
+		wg.Add(1)
+		go func() {
+			defer wg.Done()
+			<-start
+			for added.Load() < int64(c.Total/2) {
+				runtime.Gosched()
+			}
+			snapErr = fix.Safe(func() error {
+				db, err := bbolt.Open(snapPath, 0o644, nil)
+				if err != nil {
+					return err
+				}
+				defer db.Close()
+				return w.(*updog.IndexWriter).WriteToBoltDatabase(db)
+			})
+		}()
 	}
 	close(start)
 	wg.Wait()
@@ -129,6 +170,9 @@ func oracle(c *Case) (interleaved bool, err error) {
 		if e != nil {
 			return false, e
 		}
+	}
+	if snapErr != nil {
+		return false, fmt.Errorf("WriteToBoltDatabase during AddRow: %v", snapErr)
 	}
 	// ids must be exactly 0..n-1
 	seen := make([]int, c.Total)
@@ -161,6 +205,33 @@ func oracle(c *Case) (interleaved bool, err error) {
 		}
 	}
 	interleaved = maxActive.Load() >= 2 && switches >= c.Goroutines
+	if c.FlushDuring && !c.Big {
+		// the snapshot taken while rows were being added: a consistent prefix
+		sidx, _, err := fix.Open(snapPath, fix.OpenCfg{CacheCap: -1})
+		if err != nil {
+			return interleaved, fmt.Errorf("snapshot written during AddRow does not open: %v", err)
+		}
+		nsnap := 0
+		if res, err := fix.Exec(sidx, fix.NewQuery(model.Not(model.Eq("tag", "\x01none")), nil)); err == nil {
+			nsnap = int(res.Count)
+		} else if fix.IsPanic(err) {
+			fix.Safe(sidx.Close)
+			return interleaved, err
+		} // else: no row (hence no column) was in the snapshot
+		if nsnap > c.Total {
+			fix.Safe(sidx.Close)
+			return interleaved, fmt.Errorf("snapshot counts %d rows, only %d were ever added", nsnap, c.Total)
+		}
+		prefix := make([]model.Row, nsnap)
+		for id := 0; id < nsnap; id++ {
+			prefix[id] = c.row(order[id])
+		}
+		perr := fix.ProbeAll(sidx, model.NewData(prefix), fix.ProbeOpts{Unique: "tag", MaxRows: 5000, MaxValues: 8000})
+		fix.Safe(sidx.Close)
+		if perr != nil && nsnap > 0 {
+			return interleaved, fmt.Errorf("snapshot written while rows were added (%d rows) is not the index of rows 0..%d: %v", nsnap, nsnap-1, perr)
+		}
+	}
 	if err := fix.Safe(w.Flush); err != nil {
 		return interleaved, fmt.Errorf("Flush: %v", err)
 	}
@@ -226,6 +297,8 @@ func drawCase(t *rapid.T) *Case {
 		c.K = append(c.K, rapid.SampledFrom([]int{1, 2, 5, 50, 1100}).Draw(t, "k"))
 	}
 	c.Split = rapid.IntRange(0, 1).Draw(t, "split")
+	c.ReuseMap = rapid.Bool().Draw(t, "reusemap")
+	c.FlushDuring = !c.Big && rapid.IntRange(0, 2).Draw(t, "flushduring") == 0
 	return c
 }
 
